@@ -50,7 +50,9 @@ func (l *Line) Insert(pos int, chars ...rune) {
 
 	switch {
 	case l.Len() == 0:
-		*l = chars
+		// (a copy: the caller keeps its own characters, e.g. the kill
+		// ring when yanking, whatever is then done to the line in place)
+		*l = append(make([]rune, 0, len(chars)), chars...)
 	case pos < l.Len():
 		forward := string((*l)[pos:])
 		cut := string(append((*l)[:pos], chars...))
